@@ -17,6 +17,7 @@ G_DurableNotAhead    == Guard => DurableNotAheadOfLog
 G_AckedDurable       == Guard => AckedDurable
 G_CommitLeHead       == Guard => CommitLeHead
 G_Quiescent          == Guard => QuiescentCommitted
+G_LogContiguous      == Guard => LogContiguous
 
 Symm == Permutations({v1, v2, v3}) \cup Permutations({a, b, c})
 SymmV == Permutations({v1, v2, v3})
